@@ -301,9 +301,22 @@ class DiscreteStridedIntervalSet(StridedInterval):
 
     def __neg__(self):
         """
-        Operation ~
+        Operation - (arithmetic negation)
 
         :return: The negated value.
+        """
+        new_si_set = set()
+        for si in self._si_set:
+            new_si_set.add(-si)
+
+        r = DiscreteStridedIntervalSet(bits=self._bits, si_set=new_si_set)
+        return r.normalize()
+
+    def __invert__(self):
+        """
+        Operation ~ (bitwise not)
+
+        :return: The inverted value.
         """
         new_si_set = set()
         for si in self._si_set:
@@ -311,14 +324,6 @@ class DiscreteStridedIntervalSet(StridedInterval):
 
         r = DiscreteStridedIntervalSet(bits=self._bits, si_set=new_si_set)
         return r.normalize()
-
-    def __invert__(self):
-        """
-        Operation ~
-
-        :return: The negated value.
-        """
-        return self.__neg__()
 
     @apply_on_each_si
     def __lshift__(self, o):
